@@ -26,6 +26,7 @@ LEVEL_TEXT = ("Theorems over the flat multi-tick model: two complete runs of one
               "synchronous bus and under a broker-like bus (per-topic FIFO, one pump per consumer) whose delivery order is enumerated exhaustively by "
               "DFS on small configurations (<= 5 components) and sampled on larger flat and nested ones; all per-device observation sequences must "
               "coincide with each other and with the Lean model's.")
+LEVEL_ADDENDUM = 'Session 8: one schedule in three of the callback-driven scenarios runs with message latency IN REAL TIME (up to 0.7 ms per loop iteration, more than some requested callback delays); the fake aiokafka refuses iteration / send before start() has completed.'
 LEVEL_NOTE = "Trusts: Lean kernel; hand-written models; the HeldBus harness class as a faithful rendering of the state-interface contract (Kafka itself is not run)."
 ASSUMPTIONS = ["devices are deterministic functions of (their history, time, inputs)", "stimuli are applied between ticks", "per-topic FIFO delivery"]
 
